@@ -114,6 +114,36 @@ func vSyncWALScenario(crash bool) {
 		flushed = queued
 		finished = true
 	}
+	if !rt.Symbolic() {
+		// native replay: the loop runs in a real goroutine and the client steps are taken when it has drained its queue
+		body = func() {
+			haveWALWriter = true
+			vQueueWrite(e1, tbk, variable, ws[1])
+			queued = 2
+			e1.wf.walWaitGroup.Add(1)
+			done := make(chan struct{})
+			go func() {
+				e1.wf.SyncWAL(5*time.Millisecond, 5*time.Minute, 1)
+				close(done)
+			}()
+			drained := func() {
+				for i := 0; i < 2000 && len(e1.wf.txnPipe.writeChannel) > 0; i++ {
+					time.Sleep(time.Millisecond)
+				}
+				time.Sleep(50 * time.Millisecond)
+			}
+			drained()
+			vQueueWrite(e1, tbk, variable, ws[2])
+			queued = 3
+			if !pendingAtShutdown {
+				drained()
+			}
+			*e1.wf.shutdownPending = true
+			<-done
+			flushed = queued
+			finished = true
+		}
+	}
 	rt.Reach("entered")
 	crashed := false
 	if crash {
